@@ -18,6 +18,7 @@ type Summary struct {
 	Violations []VRec                    `json:"violations"`
 	Samples    []string                  `json:"samples"`
 	Determinism *DetSummary              `json:"determinism,omitempty"`
+	KeyMon      *KeyMonSummary           `json:"keymon,omitempty"` // mode purekeys: the key monitor (mon_keys.go)
 }
 
 type VRec struct {
@@ -31,7 +32,7 @@ type VRec struct {
 var distinctOK map[string]bool
 
 func main() {
-	mode := flag.String("mode", "explore", "explore | determinism | corpus | replay | pureprice | purekeys")
+	mode := flag.String("mode", "explore", "explore | determinism | corpus | replay | shrink | pureprice | purekeys | keyreplay")
 	seed := flag.Int64("seed", 1, "PRNG seed")
 	n := flag.Int("n", 10, "number of generated histories")
 	minOps := flag.Int("minops", 30, "")
@@ -101,7 +102,31 @@ func main() {
 
 	switch *mode {
 	case "purekeys":
-		fmt.Printf("purekeys cases=%d\n", runPureKeys(out, *seed, *n))
+		cases, km := runPureKeys(out, *seed, *n)
+		sum.KeyMon = km
+		for _, f := range km.Findings {
+			sum.Violations = append(sum.Violations, VRec{-1, "purekeys", f.Prop, -1, f.Kind + ": " + f.Detail})
+		}
+		fmt.Printf("purekeys cases=%d keymon: key_calls=%d subspace_calls=%d equal_bytes_pairs=%d scan_comparisons=%d findings=%d\n", cases,
+			km.KeyCalls, km.SubspaceCalls, km.EqualBytesPairs, km.ScanComparisons, km.NFindings)
+	case "keyreplay":
+		b, err := os.ReadFile(*replay)
+		must(err)
+		var body struct {
+			Finding KMFinding `json:"finding"`
+		}
+		must(json.Unmarshal(b, &body))
+		still, lines := runKeyReplay(body.Finding)
+		fmt.Printf("keyreplay kind=%s theorem=%s\n", body.Finding.Kind, body.Finding.Theorem)
+		for _, l := range lines {
+			fmt.Println(l)
+		}
+		if still {
+			fmt.Println("KEYREPLAY still-present")
+		} else {
+			fmt.Println("KEYREPLAY gone")
+		}
+		return
 	case "shrink":
 		runShrink(w, *replay, *prop, *outPath+".min.json")
 	case "replay":
